@@ -259,6 +259,38 @@ Section ABF.
     end.
   Definition abf_run (c : abf_cfg) (h : list abf_in) := abf_run_from c (abf_init c) h.
 
+  (* ---- timeStepFactor k > 1 on the bias and its variables (impulse multiple time stepping; only available with
+     same-step total forces: colvar.cpp excludes f_cv_multiple_ts with lagged total forces).
+     colvarmodule::calc_colvars: bias and variables are awake at the steps whose number is a multiple of k, asleep
+     otherwise: then update() is not called, the variables are not computed, colvar::f is reset to 0 and nothing is
+     applied.  At an awake step colvarbias::communicate_forces hands k * colvar_forces * factor to the variables and
+     colvar::update_forces_energy subtracts k * fj with hideJacobian.
+     [abf_mstep] reuses [abf_step] for the grids, bin, force_bin, ABF force and total force; the fields of the state
+     that only the lagged convention reads (s_eng, s_fold, s_fprev) are not meaningful here. *)
+  Definition awake (k : Z) (clk : Z * bool) : bool := (k <=? 1) || (fst clk mod k =? 0).
+  Definition abf_sleep (c : abf_cfg) (s : abf_state) (i : abf_in) : abf_state * abf_out :=
+    (mkSt (s_cnt s) (s_sum s) (s_bin s) (s_fbin s) (s_fabf s) (s_fprev s) (s_ft s) (s_fold s) (s_eng s) (s_fj s)
+          (fst (st_clk s i)) true,
+     mkOut (s_bin s) (s_fabf s) (vzero (c_nd c)) (vzero (c_nd c)) (fst (st_clk s i)) (snd (st_clk s i)) (s_ft s)).
+  Definition mts_out (c : abf_cfg) (k : Z) (i : abf_in) (o : abf_out) : abf_out :=
+    let fapp := vbuild (c_nd c) (fun d => nmul O (nmul O (nofZ O k) (vget (o_fabf o) d)) (sfac c (st_bin c i))) in
+    mkOut (o_bin o) (o_fabf o) fapp
+          (vbuild (c_nd c) (fun d =>
+             let fb := nadd O (vget fapp d) (oeff c i d) in
+             if c_hidej c && cvapply c i d then nsub O fb (nmul O (vget (i_j i) d) (nofZ O k)) else fb))
+          (o_rel o) (o_cont o) (o_tf o).
+  Definition abf_mstep (c : abf_cfg) (k : Z) (s : abf_state) (i : abf_in) : abf_state * abf_out :=
+    if awake k (st_clk s i)
+    then (fst (abf_step c s i), mts_out c k i (snd (abf_step c s i)))
+    else abf_sleep c s i.
+  Fixpoint abf_mrun_from (c : abf_cfg) (k : Z) (s : abf_state) (h : list abf_in) : abf_state * list abf_out :=
+    match h with
+    | [] => (s, [])
+    | i :: r => let so := abf_mstep c k s i in
+                let ro := abf_mrun_from c k (fst so) r in
+                (fst ro, snd so :: snd ro)
+    end.
+
   (* inputPrefix: colvarbias_abf::read_gradients_samples adds the counts of the .count file to `samples` and,
      for the .grad file, gradient * (count read) to `gradients` (colvar_grid_gradient::value_input with add).
      One data set per prefix of the inputPrefix list, added in order. *)
@@ -355,6 +387,10 @@ Section ABF.
   Definition fsum_of (k : nat) (b : idx) (S : list (idx * vec)) : T :=
     gsum (map (fun v => vget v k) (samples_in b S)).
   (* the trace of a history: the history zipped with what the model reports at each step *)
+  (* timeStepFactor k: a step of the history yields a sample only if the bias is awake at it *)
+  Definition attributed_mts (c : abf_cfg) (k : Z) (tr : trace) : list (idx * vec) :=
+    map (fun d => (fst (fst d), snd (fst d)))
+        (filter (fun d => awake k (snd d) && eligible c (snd d) && index_ok c (fst (fst d))) (deliveries_same c tr)).
   Definition trace_from (c : abf_cfg) (s : abf_state) (h : list abf_in) : trace := combine h (snd (abf_run_from c s h)).
   Definition trace_of (c : abf_cfg) (h : list abf_in) : trace := trace_from c (abf_init c) h.
 End ABF.
